@@ -867,8 +867,15 @@ func c14Column(h *H, s c14ColSpec, rows int, decoded bool) {
 			}
 		}
 		var out bytes.Buffer
-		w := proto.NewWriter(&out, new(proto.Buffer))
-		w.ChainBuffer(func(b *proto.Buffer) { b.PutRaw(prefix) })
+		var w *proto.Writer
+		if c14PrefixMode++; c14PrefixMode%2 == 0 {
+			// the bytes that precede are already in the buffer the Writer is given (every starting state of the
+			// output buffer): they have to go out first all the same
+			w = proto.NewWriter(&out, &proto.Buffer{Buf: append([]byte(nil), prefix...)})
+		} else {
+			w = proto.NewWriter(&out, new(proto.Buffer))
+			w.ChainBuffer(func(b *proto.Buffer) { b.PutRaw(prefix) })
+		}
 		if se, ok := c2.(proto.StateEncoder); ok {
 			w.ChainBuffer(se.EncodeState)
 		}
@@ -893,6 +900,8 @@ func c14Column(h *H, s c14ColSpec, rows int, decoded bool) {
 	h.Stat("c14.col")
 	h.Emit(cname, fmt.Sprintf("ok %d bytes", len(viaBuf)), oracle)
 }
+
+var c14PrefixMode int
 
 // one block through both paths
 func c14Block(h *H, version int) {
@@ -967,6 +976,21 @@ func c14Block(h *H, version int) {
 	}
 	h.Stat("c14.blk")
 	h.Emit(cname, fmt.Sprintf("ok %d bytes", len(viaBuf)), oracle)
+}
+
+// the column part alone (every catalogue kind x row count, appended and decoded state): the vectored path against the
+// buffer path, with the preceding bytes handed over in the Writer's buffer or chained; run in both builds by C15
+func init() { runners["c14col"] = runC14Col }
+
+func runC14Col(h *H) {
+	for _, s := range c14Catalogue {
+		for _, rows := range c14RowCounts {
+			c14Column(h, s, rows, false)
+			if rows > 0 && rows < 300 {
+				c14Column(h, s, rows, true)
+			}
+		}
+	}
 }
 
 func runC14(h *H) {
